@@ -367,6 +367,7 @@ fn parent(id: &str, tier: Tier) -> ExitCode {
             };
             merged.evaluations += r.evaluations;
             merged.skipped_unspecified += r.skipped_unspecified;
+            merged.distinct_by_construction += r.distinct_by_construction;
             for (k, v) in r.classes {
                 *merged.classes.entry(k).or_insert(0) += v;
             }
@@ -423,6 +424,7 @@ fn parent(id: &str, tier: Tier) -> ExitCode {
     }
     fps.sort_unstable();
     fps.dedup();
+    let distinct_nontrivial = fps.len() as u64 + merged.distinct_by_construction;
 
     // 4. verdict
     let mut known_lines = Vec::new();
@@ -448,10 +450,10 @@ fn parent(id: &str, tier: Tier) -> ExitCode {
 
     // 5. vacuity guard
     let floor = tier.pick(check.floor_quick, check.floor_thorough);
-    if violations.is_empty() && inconclusive.is_none() && (fps.len() as u64) < floor {
+    if violations.is_empty() && inconclusive.is_none() && distinct_nontrivial < floor {
         inconclusive = Some(format!(
             "vacuity guard: only {} distinct non-trivial cases (floor {})",
-            fps.len(),
+            distinct_nontrivial,
             floor
         ));
     }
@@ -461,7 +463,8 @@ fn parent(id: &str, tier: Tier) -> ExitCode {
     let mut coverage = BTreeMap::new();
     let extra = prep_info.get("extra_evaluations").and_then(|v| v.as_u64()).unwrap_or(0);
     coverage.insert("evaluations".to_string(), json!(merged.evaluations + regress_n + extra));
-    coverage.insert("distinct_nontrivial".to_string(), json!(fps.len()));
+    coverage.insert("distinct_nontrivial".to_string(), json!(distinct_nontrivial));
+    coverage.insert("distinct_nontrivial_breakdown".to_string(), json!({"enumerated (distinct by construction)": merged.distinct_by_construction, "generated (distinct fingerprints)": fps.len()}));
     coverage.insert("rule".to_string(), json!(check.rule));
     let mut samples = merged.samples.clone();
     if samples.is_empty() {
@@ -518,7 +521,7 @@ fn parent(id: &str, tier: Tier) -> ExitCode {
         tier.name(),
         seed,
         merged.evaluations + regress_n + extra,
-        fps.len(),
+        distinct_nontrivial,
         merged.skipped_unspecified,
         wall
     );
